@@ -1,5 +1,121 @@
-From Coq Require Import List Arith ZArith NArith Bool.
-From TFV Require Import Comb.Topology.
+(* C14 — statements only.  Each closed by [exact] of a lemma from Comb/Topology_proofs.v. *)
+From Coq Require Import List Arith ZArith NArith Bool Permutation.
+From TFV Require Import Comb.Topology Comb.Topology_proofs.
 Import ListNotations.
-Example C14_example_count : map (fun n => length (from_particles n)) [2;3;4;5] = [1;3;15;105].
+
+(* (2n-3)!! chains for n final particles - ALL n >= 1 (unbounded).
+   [dfact_odd n] = (2n-3)!! = 1, 1, 3, 15, 105, 945, 10395, ...
+   (n = 1: the model returns one graph; the implementation raises KeyError there.) *)
+Theorem C14_count_double_factorial : forall n, 1 <= n -> length (from_particles n) = dfact_odd n.
+Proof. exact count_double_factorial. Qed.
+Print Assumptions C14_count_double_factorial.
+
+(* ALL n >= 1 (unbounded, invariant of add_node): the edge list of every enumerated graph is
+   (a permutation of) the edges of a binary tree hanging below the top particle, its leaves
+   are exactly the given finals f0..f(n-1), each once, its n-1 inner nodes are pairwise
+   different, and it has 2n-1 edges. *)
+Theorem C14_all_binary_trees_with_leaves :
+  forall n g, 1 <= n -> In g (graphs_n n) ->
+  exists t : bt, Permutation (g_edges g) (gfrom VTop t)
+                 /\ Permutation (leaves t) (seq 0 n)
+                 /\ Permutation (inners t) (seq 0 (n - 1))
+                 /\ length (g_edges g) = 2 * n - 1.
+Proof. exact graphs_are_binary_trees. Qed.
+Print Assumptions C14_all_binary_trees_with_leaves.
+
+(* the same fact on the chains handed out (after get_decay_chain), n = 2..7 by evaluation:
+   n-1 two-body decays, one top, every inner node produced once and decaying once, leaves
+   exactly f0..f(n-1), the table loop reaches every decay *)
+Theorem C14_chains_binary_trees_le7 :
+  forall n, In n [2; 3; 4; 5; 6; 7] -> forall c, In c (from_particles n) -> chain_bintree_ok n c = true.
+Proof.
+  intros n Hn. apply (proj1 (forallb_forall _ _)).
+  exact (proj1 (forallb_forall _ _) chains_bintree_le7 n Hn).
+Qed.
+Print Assumptions C14_chains_binary_trees_le7.
+
+(* pairwise different topologies, n <= 7 (10395 chains for n = 7), by evaluation.
+   General statement (all n) kept visible; not proved: needs "insertion at different edges
+   gives different grouping sets". *)
+Definition C14_pairwise_distinct_general : Prop :=
+  forall n i j, i < length (from_particles n) -> j < length (from_particles n) -> i <> j ->
+    topology_same false (nth i (from_particles n) []) (nth j (from_particles n) []) = false.
+Theorem C14_pairwise_distinct_le7_partial :
+  forall n, In n [1; 2; 3; 4; 5; 6; 7] ->
+  forall i j, i < length (from_particles n) -> j < length (from_particles n) -> i <> j ->
+    topology_same false (nth i (from_particles n) []) (nth j (from_particles n) []) = false.
+Proof. exact pairwise_distinct_le7. Qed.
+Print Assumptions C14_pairwise_distinct_le7_partial.
+
+(* same topology  <->  same final-state groupings (ALL chains; identical=true compares the
+   groupings after forgetting particle ids) *)
+Theorem C14_topology_same_iff :
+  forall identical a b,
+    topology_same identical a b = true <->
+    Permutation (map (id_view identical) (groupings a)) (map (id_view identical) (groupings b)).
+Proof. exact topology_same_iff. Qed.
+Print Assumptions C14_topology_same_iff.
+
+(* table and chain determine each other, n = 2..7 by evaluation: from_sorted_table (sorted_table c)
+   has the decays of c (up to order) and the same topology id.  General statement visible. *)
+Definition C14_table_chain_bijection_general : Prop :=
+  forall n c, In c (from_particles n) -> table_roundtrip_ok c = true.
+Theorem C14_table_chain_bijection_le7_partial :
+  forall n, In n [2; 3; 4; 5; 6; 7] -> forall c, In c (from_particles n) -> table_roundtrip_ok c = true.
+Proof.
+  intros n Hn. apply (proj1 (forallb_forall _ _)).
+  exact (proj1 (forallb_forall _ _) table_roundtrip_le7 n Hn).
+Qed.
+Print Assumptions C14_table_chain_bijection_le7_partial.
+
+(* ALL groups: every chain is in exactly one class of topology_structure *)
+Theorem C14_structure_partition :
+  forall identical chs,
+    incl (topology_structure identical chs) (indexed chs)
+    /\ forall c, In c (indexed chs) ->
+         exists r, In r (topology_structure identical chs)
+                   /\ topology_same identical (snd c) (snd r) = true
+                   /\ forall r', In r' (topology_structure identical chs) ->
+                                 topology_same identical (snd c) (snd r') = true -> r' = r.
+Proof. exact structure_partition. Qed.
+Print Assumptions C14_structure_partition.
+
+(* get_chains_map (classes named by standard_topology, with particle maps): every chain in
+   exactly one class, for the group of all chains over n <= 5 finals and for the group that
+   differs only by swapped identical particles; by evaluation.  General statement visible
+   (not proved: needs sorted_table (standard_topology c) = renamed sorted_table c). *)
+Definition C14_chains_map_partition_general : Prop :=
+  forall chs, (forall c, In c chs -> exists n, In c (from_particles n)) -> chains_map_partition_ok false chs = true.
+Theorem C14_chains_map_partition_le5_partial :
+  (forall n, In n [2; 3; 4; 5] -> chains_map_partition_ok false (from_particles n) = true)
+  /\ chains_map_partition_ok false swapped_identical_group = true.
+Proof.
+  split; [exact (proj1 (forallb_forall _ _) chains_map_partition_le5) | exact chains_map_swapped_identical_ok].
+Qed.
+Print Assumptions C14_chains_map_partition_le5_partial.
+
+(* the particle map to / from the standard topology carries decays to decays, n <= 6 *)
+Theorem C14_topology_map_homomorphism_le6_partial :
+  forall n, In n [2; 3; 4; 5; 6] -> forall c, In c (from_particles n) ->
+    homomorphism_ok (standard_topology c) c && homomorphism_ok c (standard_topology c) = true.
+Proof.
+  intros n Hn. apply (proj1 (forallb_forall _ _)).
+  exact (proj1 (forallb_forall _ _) std_homomorphism_le6 n Hn).
+Qed.
+Print Assumptions C14_topology_map_homomorphism_le6_partial.
+
+(* the membership test of get_chains_map before /repo commit 04ce759 (identical=True against
+   classes built with identical=False) does NOT give a partition: KeyError on this group *)
+Theorem C14_chains_map_old_flag_refuted : chains_map_gen true swapped_identical_group = None.
+Proof. exact chains_map_old_flag_refuted. Qed.
+Print Assumptions C14_chains_map_old_flag_refuted.
+
+(* non-vacuity *)
+Example C14_example_count : map (fun n => length (from_particles n)) [2; 3; 4; 5] = [1; 3; 15; 105].
+Proof. vm_compute. reflexivity. Qed.
+Example C14_example_3body :
+  from_particles 3 =
+  [[(P (-1) 0, [P 1 0; P 2 0]); (P 0 0, [P (-1) 0; P 3 0])];
+   [(P 0 0, [P 2 0; P (-2) 0]); (P (-2) 0, [P 1 0; P 3 0])];
+   [(P 0 0, [P 1 0; P (-2) 0]); (P (-2) 0, [P 2 0; P 3 0])]]%Z.
 Proof. vm_compute. reflexivity. Qed.
